@@ -7,7 +7,7 @@ if [ -z "$VERIF_REPO" ] && [ -n "$(git -C /repo status --porcelain -- mysensors)
 fi
 OUT=${RUNALL_OUT:-/tmp}
 mkdir -p "$OUT"
-for p in C01 C02 C03 C04 C05 C06 C07 C08 C09 C10 C11 C12 C13 C14 C15 C16 C17 C18 C19 C20; do
+for p in ${RUNALL_CHECKS:-C01 C02 C03 C04 C05 C06 C07 C08 C09 C10 C11 C12 C13 C14 C15 C16 C17 C18 C19 C20}; do
   s=$(date +%s)
   ./check $p --tier $TIER > $OUT/runall_$p.out 2>&1
   rc=$?
